@@ -25,7 +25,7 @@ func c13Stripes(m *MemDb) []*sync.RWMutex { return m.locks.locks }
 // natively there is no lock record: replay a suspected ordering defect as a stress run of the command
 // against itself with the key arguments reversed
 func c13NativeStress(m *MemDb, fwd, rev [][]byte) int {
-	done := make(chan struct{}, 2)
+	done := make(chan struct{}, 4)
 	run := func(args [][]byte) {
 		for i := 0; i < 30000; i++ {
 			m.ExecCommand(context.Background(), args, nil)
@@ -34,8 +34,28 @@ func c13NativeStress(m *MemDb, fwd, rev [][]byte) int {
 	}
 	go run(fwd)
 	go run(rev)
+	// ... and against multi-key writers and readers that take the same stripes through the code's own
+	// LockMulti / RLockMulti (a command whose order differs from theirs deadlocks against them)
+	var keys []string
+	for _, k := range fwd[1:] {
+		keys = append(keys, string(k))
+	}
+	go func() {
+		for i := 0; i < 30000; i++ {
+			m.locks.LockMulti(keys)
+			m.locks.UnLockMulti(keys)
+		}
+		done <- struct{}{}
+	}()
+	go func() {
+		for i := 0; i < 30000; i++ {
+			m.locks.RLockMulti(keys)
+			m.locks.RUnLockMulti(keys)
+		}
+		done <- struct{}{}
+	}()
 	to := time.After(8 * time.Second)
-	for i := 0; i < 2; i++ {
+	for i := 0; i < 4; i++ {
 		select {
 		case <-done:
 		case <-to:
@@ -296,6 +316,13 @@ func c13Pair(label string, typ byte, mk func(a, b []byte) ([][]byte, [][]byte)) 
 	c13Seed(m, typ, a, b)
 	c1, c2 := mk(a, b)
 	ctx := context.Background()
+	if !vfIsSymbolic() {
+		// one native run of two goroutines rarely lands on the losing schedule: repeat the pair
+		if c13NativeStress(m, c1, c2) != 0 {
+			panic("deadlock: the two commands stopped making progress (native stress timed out)")
+		}
+		return
+	}
 	vfSpawn(func() { m.ExecCommand(ctx, c1, nil) })
 	vfSpawn(func() { m.ExecCommand(ctx, c2, nil) })
 	vfWaitAll()
